@@ -382,9 +382,17 @@ def r3_once(program, rep, B):
                 ENT[2]:
             SEQ = ENT[2][0]
             facts = view.full_facts(fnode)
+            # (the membership test is in force where the pop is made; the
+            # pop itself then changes the table)
+            pfacts = []
+            for v_, n_, c_, recv_, args_ in _view_calls(T, ("pop",)):
+                if v_ is view and v_.term(c_, n_) == ENT:
+                    pfacts = v_.full_facts(n_)
             okpop = (is_none(ENT), False) in facts or (
-                len(ENT[2]) == 1 and (mk_cmp("In", SEQ, B.TABLE), True)
-                in facts)
+                len(ENT[2]) == 1 and ((mk_cmp("In", SEQ, B.TABLE), True)
+                                      in facts or
+                                      (mk_cmp("In", SEQ, B.TABLE), True)
+                                      in pfacts))
             # a pop without default under a membership test must follow it
             # directly (the table is a local mutable: the fact is only kept
             # while nothing changed it)
